@@ -24,6 +24,11 @@ Case kinds
          lexer model returns exactly the units' tokens).  Counted: accepted pairs the real lexer agrees on,
          accepted pairs it splits differently (must be 0, fails K), refused pairs it would still split
          correctly (completeness of the sufficient test), refused pairs that really merge.
+  regex  a random regex source over every construct of the regex AST (lean/PyxModel/Regex.lean) with a dozen short
+         texts over a small alphabet (near-misses frequent): Python's `re.match(source, text).end()` against the
+         generic matcher `Regex.matchPrefix` on the AST translator/regex_ast.py computes from the source with
+         Python's regex parser.  K only - this is the semantics the lexer tie rests on: Proofs/OalRegex.lean proves
+         that the proved lexer model IS that matcher run on the generated ASTs of the rule regexes (`lexRx_eq_lex`).
   K (all kinds, texts the UTF-8 pipe can carry): the token stream of the real PLY lexer on text+'\\n' - kind,
      lexeme, lexpos, endlexpos, lineno, endlineno - equals the Lean lexer model's; and for every checked node's
      (first, last) token pair, `find_column`/slice arithmetic of the implementation on ITS tokens equals the
@@ -35,6 +40,7 @@ import common
 
 from sexp import Sym, dumps, loads
 import gen_oal_text as G
+import gen_regex as GR
 
 PROP = 'C13'
 RULE = ('pos: random programs over most statement/expression productions written token by token, three layout '
@@ -53,6 +59,7 @@ ASSUMPTIONS = [
 TRUSTED_EXTRA = ['translator/gen_oallex.py (rule table, flags of the rule bodies, first-character sets of the COMMENT alternatives)',
                  'harness/gen_oal_text.py (the writer\'s own offset/line/column counters are the position oracle)']
 CHUNK = 1500
+RX_LIMIT = 2500          # Driver/C13.lean rxLimit: the generic regex engine is run on texts up to this length
 SKIP_LIMIT = 0.02         # largest tolerated share of position cases on which D could not be evaluated
 CASE_TIMEOUT_S = 12
 BUDGET_S = {'quick': 200, 'thorough': 1500}
@@ -188,9 +195,39 @@ def _tight_cases(ctx):
         yield {'kind': 'tight', 'pairs': items, 'text': '\n'.join(i[1] + i[2] for i in items)}
 
 
+def _regex_cases(ctx, n):
+    rng = ctx.rng.fork('regex')
+    for i in range(n):
+        src, tree, texts, refused = GR.regex_case(rng.fork(i))
+        yield {'kind': 'regex', 'text': src, 'ast': dumps(GR.to_sexp(tree)), 'texts': texts, 'refused': refused,
+               'shape': sorted(_regex_shape(tree, set()))}
+
+
+def _regex_shape(t, acc):
+    k = t[0]
+    if k == 'star':
+        acc.add('star-greedy' if t[1] else 'star-lazy')
+        if t[2][0] not in ('cls',):
+            acc.add('star-of-compound')
+    elif k == 'cls':
+        if t[1]:
+            acc.add('cls-negated')
+        for it in t[2]:
+            acc.add('item-' + it[0] + ('-' + it[1] if it[0] in ('cat', 'ncat') else ''))
+    else:
+        acc.add(k)
+    for x in t[1:]:
+        if isinstance(x, tuple):
+            _regex_shape(x, acc)
+    return acc
+
+
 def generate(ctx):
     # the production table read by the translator against PLY's own table
     yield {'kind': 'grammar', 'text': ''}
+    # the generic regex matcher against Python's `re`
+    for c in _regex_cases(ctx, ctx.pick(500, 8000)):
+        yield c
     # time families first: a super-linear rule shows up on them at once (and would slow every later case)
     for c in _time_cases(ctx):
         yield c
@@ -314,7 +351,9 @@ def _impl_obs(case, lexdata):
                           lexdata[ss:es]])
         else:
             spans.append(Sym('none'))
-    return [obs_t, spans]
+    # third component: the same PLY stream again - the model side carries there the stream of `lexRx`, the lexer
+    # model whose lexemes come from the generic regex engine on the regex ASTs generated from the rule docstrings
+    return [obs_t, spans, obs_t if len(lexdata) <= RX_LIMIT else Sym('skipped')]
 
 
 def _check_positions(text, toks, exp, out, root, st, stats, fails, short):
@@ -350,7 +389,19 @@ def _check_positions(text, toks, exp, out, root, st, stats, fails, short):
     return nontrivial
 
 
+def _run_regex(case):
+    lens = GR.py_lengths(case['text'], case['texts'])
+    stats = {'kind_regex': 1, 'regex_texts': len(lens), 'regex_matched': sum(1 for x in lens if x != 'none'),
+             'regex_no_match': sum(1 for x in lens if x == 'none'), 'regex_refused_sources': case['refused']}
+    for k in case['shape']:
+        stats['regex_' + k] = 1
+    return {'obs': lens, 'd_fail': [], 'nontrivial': 0 < stats['regex_matched'] < len(lens),
+            'key': case['text'] + '\x00' + '\x00'.join(case['texts']), 'stats': stats}
+
+
 def run_impl(case):
+    if case['kind'] == 'regex':
+        return _run_regex(case)
     text = case['text']
     fails = []
     unsound = None
@@ -438,6 +489,8 @@ def run_impl(case):
 def model_line(case):
     if case['kind'] == 'grammar':
         return '(c13-grammar)'
+    if case['kind'] == 'regex':
+        return '(c13-regex %s %s)' % (case['ast'], ' '.join(dumps(t) for t in case['texts']))
     text = case['text']
     if not _pipeable(text):
         return None
@@ -454,7 +507,7 @@ def model_obs(case, ans):
 
 
 def shrink_candidates(case):
-    if case['kind'] in ('pos', 'seq', 'tight', 'grammar'):
+    if case['kind'] in ('pos', 'seq', 'tight', 'grammar', 'regex'):
         return
     text = case['text']
     n = len(text)
